@@ -126,7 +126,13 @@ def modulo(num: Union[float, int], other: Union[float, int]) -> Union[float, int
     try:
         if isinstance(num, int) and isinstance(other, int):
             return num % other
-        return float(decimal.Decimal(str(num)) % decimal.Decimal(str(other)))
+        d_other = decimal.Decimal(str(other))
+        rem = decimal.Decimal(str(num)) % d_other
+        # Decimal's remainder takes the sign of the dividend. Integers (and the
+        # reference implementation) take the sign of the divisor.
+        if rem and (rem < 0) != (d_other < 0):
+            rem += d_other
+        return float(rem)
     except ZeroDivisionError as err:
         raise FilterArgumentError(
             f"modulo: can't divide by {other}", token=None
